@@ -153,6 +153,19 @@ CHECKS = {
         technique="runtime reference-model monitor over recorded reader sessions (list-slice model), exhaustive small scope",
         design="DESIGN.md section 2, C11",
     ),
+    "C14": dict(
+        script="checks/c14.py",
+        level="exploration",
+        text="Dozens (quick) to hundreds (thorough) of synthetic joint p.d.f. tables - sizes 2..96, flat/peaked/steep/phase-space/zero-tail shapes, "
+             "both the shipped 'Test' layout and the documented real layout - are encoded with the repository's own mkocdfdata.py; a monitor compares "
+             "every decoded cumulative value with the encoder's exact value within the encoding precision (runs of up to fifteen 9s reached), checks "
+             "monotonicity, range and the final 1, samples (u1,u2) on cell boundaries (value, nextafter down/up), tails and random pairs and checks "
+             "non-negativity, cell membership, e1+e2 <= dataset maximum, monotonicity in each deviate, and that shoot() on a tape equals the replayed "
+             "shoot_e1_e2 + shoot_cos_theta; the rejection method is bound to its range and maximum.",
+        note="Datasets are synthetic (the real 1.7 GB dataset is not available offline); the encoder script of /repo is trusted as the format's definition.",
+        technique="runtime oracle monitor: encoder-side truth vs decoder, cell-membership and monotonicity assertions on sampled deviate pairs",
+        design="DESIGN.md section 2, C14",
+    ),
     "C16": dict(
         script="checks/c16.py",
         level="exploration",
